@@ -66,7 +66,9 @@ def apiProg (c : Cfg) : Op → Prog Int
   | .stop m => apiStop m
   | .become m h => apiBecome m h
   | .unbecome m => apiUnbecome m
-  | .stash m idx => apiStash m (match c.stack with | f :: _ => f.evts[idx]? | [] => none)
+  | .stash m idx =>
+    -- the i-th event of the innermost handler invocation in progress
+    apiStash m (match c.stack.find? (fun f => !f.evts.isEmpty) with | some f => f.evts[idx]? | none => none)
   | .unstash m n => apiUnstash m n
   | .batchSize m n => apiBatchSize m n
   | .batchTimeout m ns => apiBatchTimeout m ns
